@@ -1497,7 +1497,31 @@ convert_array_from_object(char *data, CTypeDescrObject *ct, PyObject *init)
             return -1;
         }
         items = PySequence_Fast_ITEMS(init);
+        if (ctitem->ct_flags & (CT_STRUCT | CT_UNION)) {
+            if (force_lazy_struct(ctitem) < 0)
+                return -1;
+        }
         for (i=0; i<n; i++) {
+            if ((ctitem->ct_flags & (CT_STRUCT | CT_UNION)) &&
+                (ctitem->ct_flags_mut & CT_WITH_VAR_ARRAY) &&
+                !CData_Check(items[i])) {
+                /* an array item of var-sized struct type has no room for
+                   its open-ended array: the allocation was sized for
+                   'ct_size' bytes per item, so refuse an initializer that
+                   would need more (it would be written past the item) */
+                Py_ssize_t itemsize = ctitem->ct_size;
+                if (convert_struct_from_object(NULL, ctitem, items[i],
+                                               &itemsize) < 0)
+                    return -1;
+                if (itemsize > ctitem->ct_size) {
+                    PyErr_Format(PyExc_ValueError,
+                                 "initializer for an item of '%s' needs %zd "
+                                 "bytes, but array items of type '%s' have "
+                                 "only %zd", ct->ct_name, itemsize,
+                                 ctitem->ct_name, ctitem->ct_size);
+                    return -1;
+                }
+            }
             if (convert_from_object(data, ctitem, items[i]) < 0)
                 return -1;
             data += ctitem->ct_size;
